@@ -88,7 +88,9 @@ CHECKS = {
          "it first, and what the completion handed to the operation is released with it. io_uring driver layer (MIR, adversarial "
          "completion queue: any number of F_MORE completions then at most one final one per operation, 2 operations, <= 3/4 entries): "
          "poll_entries returns an operation's kernel reference iff its final completion was queued; Driver::drop returns every "
-         "reference exactly once, after closing the ring.",
+         "reference exactly once, after closing the ring; the thread-pool fallback (push_blocking, its job, poll_blocking) "
+         "re-offers a job the pool hands back until it is accepted once, reports exactly one completion per operation with the "
+         "call's result or its panic, and notifies each completion once.",
     design_ref="DESIGN.md §1 C01/C02/C05",
     note="Conditional on the drivers honouring 'one leaked reference per accepted submission, returned by exactly one final completion': "
          "iour/mod.rs, poll/mod.rs (FFI, HashMap, flume, kernel), zero-copy notification ordering, multishot, thread-pool FrozenKey and the "
